@@ -23,6 +23,10 @@ def discharge(w, ob, timeout_ms=DEFAULT_TIMEOUT_MS, fuel=3):
     pc = [inline_nonrec(w, c) for c in pc]
     goal = inline_nonrec(w, goal)
     pc, goal = eliminate_defs(w, pc, goal)
+    k_inl = getattr(ob, "inline_goal", 0)
+    if k_inl:
+        from .specs import inline_rec_once
+        goal = inline_nonrec(w, inline_rec_once(w, goal, k_inl))
     for c in pc:
         s.add(c)
     s.add(z3.Not(goal))
